@@ -67,29 +67,32 @@ def run(ctx, R, tier):
     def id_not_in(atom, pol):
         return pol is False and isinstance(atom, ast.Compare) and len(atom.ops) == 1 and isinstance(atom.ops[0], ast.In) and \
             isinstance(atom.left, ast.Name) and atom.left.id == idp and registry_expr(atom.comparators[0])
-    ok = all(cfg.guarded(n, lambda e: edge_has_fact(e, force_true) or edge_has_fact(e, id_not_in)) for n in cfg.nodes_for(st0))
+    from .c03 import edge_implies_any
+    ok = all(cfg.guarded(n, lambda e: edge_implies_any(e, [force_true, id_not_in])) for n in cfg.nodes_for(st0))
     R.check(ok, "C16-R2", "register|duplicate-id-refused", "without force the store is reachable only if the id is not yet in the registry", reg.loc(st0),
             "a second registration under an id that is already taken silently replaces the first object")
 
     def same_object_false(atom, pol):
-        if pol is not False:
-            return False
-        for n in ast.walk(atom):
-            if isinstance(n, ast.Compare) and len(n.ops) == 1 and isinstance(n.ops[0], ast.Is) and \
-                    objp in (unparse(n.left), unparse(n.comparators[0])):
-                return True
+        if isinstance(atom, ast.Compare) and len(atom.ops) == 1 and objp in (unparse(atom.left), unparse(atom.comparators[0])):
+            return (isinstance(atom.ops[0], ast.Is) and pol is False) or (isinstance(atom.ops[0], ast.IsNot) and pol is True)
         return False
 
     def no_id_attr(atom, pol):
-        if pol is not False:
-            return False
-        for n in ast.walk(atom):
-            if isinstance(n, ast.Call) and isinstance(n.func, ast.Name) and n.func.id == "hasattr" and len(n.args) == 2 and \
-                    unparse(n.args[0]) == objp and isinstance(n.args[1], ast.Constant) and n.args[1].value == "_pyroId":
-                return True
+        return pol is False and isinstance(atom, ast.Call) and isinstance(atom.func, ast.Name) and atom.func.id == "hasattr" and len(atom.args) == 2 and \
+            unparse(atom.args[0]) == objp and isinstance(atom.args[1], ast.Constant) and atom.args[1].value == "_pyroId"
+    from .c03 import edge_implies_any
+    from ..engine.context import locals_assigned
+    idvars = set(locals_assigned(reg, lambda v: isinstance(v, ast.Attribute) and v.attr == "_pyroId" and unparse(v.value) == objp))
+
+    def no_id_value(atom, pol):
+        # the object's current id is empty / falsy: it is not registered anywhere
+        if pol is False and ((isinstance(atom, ast.Name) and atom.id in idvars) or unparse(atom) == "%s._pyroId" % objp):
+            return True
+        if isinstance(atom, ast.Compare) and len(atom.ops) == 1 and unparse(atom.left) == "%s._pyroId" % objp and \
+                isinstance(atom.comparators[0], ast.Constant) and atom.comparators[0].value in ("", None):
+            return (isinstance(atom.ops[0], (ast.NotEq, ast.IsNot)) and pol is False) or (isinstance(atom.ops[0], (ast.Eq, ast.Is)) and pol is True)
         return False
-    ok = all(cfg.guarded(n, lambda e: edge_has_fact(e, force_true) or edge_has_fact(e, same_object_false) or edge_has_fact(e, no_id_attr))
-             for n in cfg.nodes_for(st0))
+    ok = all(cfg.guarded(n, lambda e: edge_implies_any(e, [force_true, same_object_false, no_id_attr, no_id_value])) for n in cfg.nodes_for(st0))
     R.check(ok, "C16-R2", "register|same-object-refused", "without force an object that is already registered (its id maps to itself) is refused", reg.loc(st0),
             "an object that is already registered can be registered again without force")
 
